@@ -290,6 +290,12 @@ func ListToFunc(s *Scope, list List, depth int) Object {
 				if strings.EqualFold("lambda", string(sym)) {
 					lambdaDef := ListToFunc(s, ta, depth+1)
 					lc := s.Eval(lambdaDef, depth).(*Lambda)
+					// The lambda is called where it is written so the scope
+					// of each call is its lexical environment. The form
+					// built here replaces the list in the code, a closure
+					// captured now would be the scope of the first
+					// evaluation for all later ones.
+					lc.Closure = nil
 					return &Dynamic{
 						Function: Function{
 							Self: lc,
@@ -378,9 +384,17 @@ func CompileList(list List) (f Object) {
 			if 1 < len(ta) {
 				if sym, ok := ta[0].(Symbol); ok {
 					if strings.EqualFold("lambda", string(sym)) {
-						s := NewScope()
-						lambdaDef := ListToFunc(s, ta, 0)
-						lc := s.Eval(lambdaDef, 0).(*Lambda)
+						// The scope the lambda will be called in is not
+						// known yet so a symbol in the body can not be
+						// taken as a global variable. It might be a variable
+						// of the enclosing function.
+						var free []string
+						for _, form := range ta[2:] {
+							if sym, ok := form.(Symbol); ok {
+								free = append(free, string(sym))
+							}
+						}
+						lc := DefLambda("lambda", NewScope(), ta[1:], free...)
 						return &Dynamic{
 							Function: Function{
 								Self: lc,
